@@ -45,6 +45,8 @@ def intel_operand(o, opts=None):
             if opts.get('lead') and sd + 8 < 0: raise Unprintable('negative leading displacement')
         elif opts.get('order') == 'scale_first' and index is not None and scale != 1:
             inner = '+'.join(([R32[base]] if base is not None else []) + ['%d*%s' % (scale, R32[index])]) + (('%+d' % sd) if sd else '')
+        elif opts.get('order') == 'disp_middle' and len(terms) == 2 and sd:
+            inner = '%s%+d+%s' % (terms[0], sd, terms[1])                   # [ebp-8+eax*4]
         elif opts.get('order') == 'disp_first' and terms and sd:
             inner = '%d+%s' % (sd, '+'.join(terms)) if sd > 0 else None
             if inner is None: raise Unprintable('negative leading displacement')
@@ -58,8 +60,8 @@ def intel_operand(o, opts=None):
         pre = (PTR[size] + ' ') if size in PTR else ''
         if opts.get('lower_ptr'): pre = pre.lower()
         sg = (SEG[seg] + ':') if seg is not None else ''
-        if opts.get('disp_outside') and terms and sd > 0:
-            return '%s%s%d[%s]' % (pre, sg, sd, '+'.join(terms))
+        if opts.get('disp_outside') and terms and sd:
+            return '%s%s%d[%s]' % (pre, sg, sd, '+'.join(terms))          # 8[ebp] and -8[ebp]
         if not terms and seg is None:
             sg = 'ds:'          # an absolute numeric memory operand needs a segment in GNU Intel syntax
         return '%s%s[%s]' % (pre, sg, inner)
